@@ -61,7 +61,9 @@ def pair_cases(draw, max_leaves, k=2, full=False):
             rec["strip"] = []
             if k == 3 and rec["kind"] in ("redraw", "contract"):
                 rec["kind"] = "nni"
-    return {"spec": sl["spec"], "lenpat": sl["lenpat"], "rooted": rooted, "others": others}
+    return {"spec": sl["spec"], "lenpat": sl["lenpat"], "rooted": rooted, "others": others,
+            # pairs sub-check: some internal nodes / the seed carry taxa of their own (distances speak about leaf taxa)
+            "inner": draw(shapes.inner_taxa_picks())}
 
 
 @st.composite
@@ -245,6 +247,11 @@ def check_pair(ctx, case):
     rooted_flag, rooted, rts, trees, ns, taxa = build_pair(case)
     rt1, rt2 = rts[0], rts[1]
     t1, t2 = trees[0], trees[1]
+    inner = case.get("inner") or []
+    if inner:
+        shapes.add_inner_taxa(t1, ns, inner)
+        shapes.add_inner_taxa(t2, ns, inner[::-1])
+        ctx.cls("pair:taxon_on_internal_node")
     kind = case["others"][0]["kind"]
     values = lengths_present(rt1) and lengths_present(rt2)
     if values:
@@ -255,6 +262,8 @@ def check_pair(ctx, case):
                                ("sd", tc.symmetric_difference, o0["sd"])):
             fa = shapes.build_tree(spec_with_lengths(rt1), ns, taxa, is_rooted=rooted_flag)
             fb = shapes.build_tree(spec_with_lengths(rt2), ns, taxa, is_rooted=rooted_flag)
+            shapes.add_inner_taxa(fa, ns, inner)
+            shapes.add_inner_taxa(fb, ns, inner[::-1])
             v1 = ctx.call("C04.first_call:" + name, fn, fa, fb)
             v2 = ctx.call("C04.first_call:" + name, fn, fa, fb)
             ctx.check(close(v1, want, o0["scale"]) and close(v2, want, o0["scale"]), "first_call_on_fresh_trees", "C04.first_call:" + name,
